@@ -26,7 +26,7 @@ Verdict(e) ==
       [] e.fn = "append" -> V_append(e)
       [] e.fn = "integral" -> V_integral(e)
       [] e.fn = "sum_over" -> V_sum_over(e)
-      [] e.fn = "interval" -> V_interval(e)
+      [] e.fn = "interval" -> V_interval(e) \cup V_interval_more(e)
       [] e.fn = "average" -> V_average(e)
       [] e.fn = "repeat" -> V_repeat(e)
       [] e.fn = "repeat2" -> V_repeat2(e)
